@@ -1076,6 +1076,7 @@ struct World
       if (ctx.events != ev0)
         ++effective;
       check_all(op.name.c_str());
+      ctx.state(state_str());
       ctx.end_op();
     }
     // teardown: everything destroyed, ledger empty
